@@ -410,14 +410,16 @@ def rotation_from_matrix(matrix):
     R = np.asarray(matrix, dtype=np.float64)
     R33 = R[:3, :3]
     # direction: unit eigenvector of R33 corresponding to eigenvalue of 1
+    # compare the complex eigenvalue: for a small angle the real part
+    # of the other two eigenvalues `cos(angle)` is also within 1e-8 of 1
     w, W = np.linalg.eig(R33.T)
-    i = np.where(abs(np.real(w) - 1.0) < 1e-8)[0]
+    i = np.where(abs(w - 1.0) < 1e-8)[0]
     if not len(i):
         raise ValueError("no unit eigenvector corresponding to eigenvalue 1")
     direction = np.real(W[:, i[-1]]).squeeze()
     # point: unit eigenvector of R33 corresponding to eigenvalue of 1
     w, Q = np.linalg.eig(R)
-    i = np.where(abs(np.real(w) - 1.0) < 1e-8)[0]
+    i = np.where(abs(w - 1.0) < 1e-8)[0]
     if not len(i):
         raise ValueError("no unit eigenvector corresponding to eigenvalue 1")
     point = np.real(Q[:, i[-1]]).squeeze()
